@@ -28,6 +28,7 @@ import (
 	"github.com/nspcc-dev/neofs-node/pkg/local_object_storage/engine"
 	meta "github.com/nspcc-dev/neofs-node/pkg/local_object_storage/metabase"
 	"github.com/nspcc-dev/neofs-node/pkg/local_object_storage/shard"
+	"github.com/nspcc-dev/neofs-node/pkg/network/peerauth"
 	objectsvc "github.com/nspcc-dev/neofs-node/pkg/services/object"
 	aclreal "github.com/nspcc-dev/neofs-node/pkg/services/object/acl"
 	aclsvc "github.com/nspcc-dev/neofs-node/pkg/services/object/acl/v2"
@@ -61,6 +62,7 @@ import (
 	"github.com/nspcc-dev/neofs-sdk-go/version"
 	"go.uber.org/zap"
 	"google.golang.org/grpc"
+	"google.golang.org/grpc/credentials"
 	"google.golang.org/grpc/credentials/insecure"
 	"google.golang.org/grpc/mem"
 	"google.golang.org/grpc/test/bufconn"
@@ -115,6 +117,8 @@ type World struct {
 	put       *putsvc.Service
 	grpcSrv   *grpc.Server
 	conn      *grpc.ClientConn
+	grpcTLS   *grpc.Server     // the same service behind a transport that reports every peer as TLS-authenticated
+	connTLS   *grpc.ClientConn // ... as the fake peer container node
 	peerSrv   *grpc.Server
 	peerConn  *grpc.ClientConn
 	closeFns  []func()
@@ -767,6 +771,32 @@ func (w *World) peerDesc() *grpc.ServiceDesc {
 	}
 }
 
+// fakeMTLS is a transport credential that performs no handshake and reports the remote side as a peer authenticated
+// by TLS with the given public key - the state pkg/network/peerauth leaves in the context after a real mTLS handshake.
+type fakeMTLS struct{ key *keys.PublicKey }
+
+func (f fakeMTLS) ClientHandshake(_ context.Context, _ string, c net.Conn) (net.Conn, credentials.AuthInfo, error) {
+	return c, peerauth.AuthInfo{}, nil
+}
+func (f fakeMTLS) ServerHandshake(c net.Conn) (net.Conn, credentials.AuthInfo, error) {
+	return c, peerauth.AuthInfo{PublicKey: f.key}, nil
+}
+func (f fakeMTLS) Info() credentials.ProtocolInfo {
+	return credentials.ProtocolInfo{SecurityProtocol: "tls"}
+}
+func (f fakeMTLS) Clone() credentials.TransportCredentials { return f }
+func (f fakeMTLS) OverrideServerName(string) error         { return nil }
+
+func bufServeCreds(srv *grpc.Server, creds credentials.TransportCredentials) (*grpc.ClientConn, func()) {
+	lis := bufconn.Listen(1 << 20)
+	go func() { _ = srv.Serve(lis) }()
+	c, err := grpc.NewClient("passthrough:///buf",
+		grpc.WithContextDialer(func(ctx context.Context, _ string) (net.Conn, error) { return lis.DialContext(ctx) }),
+		grpc.WithTransportCredentials(creds))
+	kit.Must(err)
+	return c, func() { c.Close(); srv.Stop() }
+}
+
 func bufServe(srv *grpc.Server) (*grpc.ClientConn, func()) {
 	lis := bufconn.Listen(1 << 20)
 	go func() { _ = srv.Serve(lis) }()
@@ -1030,6 +1060,18 @@ func NewWorld(dir string) *World {
 	)
 	w.grpcSrv.RegisterService(&desc, w.srv)
 	w.conn, cl = bufServe(w.grpcSrv)
+	w.closeFns = append(w.closeFns, cl)
+	// second front: same server object, but the transport credentials say "mutually authenticated peer with peerKey"
+	// (what pkg/network/peerauth produces after a real mTLS handshake)
+	w.grpcTLS = grpc.NewServer(
+		grpc.Creds(fakeMTLS{key: (*keys.PublicKey)(&w.peerKey.PublicKey)}),
+		grpc.ForceServerCodecV2(iprotobuf.BufferedCodec{}),
+		grpc.StreamInterceptor(func(srv any, ss grpc.ServerStream, info *grpc.StreamServerInfo, h grpc.StreamHandler) error {
+			return h(srv, sendSpy{ServerStream: ss, w: w, method: filepath.Base(info.FullMethod)})
+		}),
+	)
+	w.grpcTLS.RegisterService(&desc, w.srv)
+	w.connTLS, cl = bufServeCreds(w.grpcTLS, fakeMTLS{})
 	w.closeFns = append(w.closeFns, cl)
 	return w
 }
